@@ -147,7 +147,14 @@ func vfVariantRoundTrip(val interface{}) {
 func VerifH_C01_VariantScalar() { vfVariantRoundTrip(vfScalar("v")) }
 
 func VerifH_C01_VariantArray() {
-	switch vfConcrete(vfInt("shape", 0, 6)) {
+	u := func(tag string) int32 { return int32(vfU32(tag)) }
+	switch vfConcrete(vfInt("shape", 0, 9)) {
+	case 7: // three dimensions, trailing dimensions larger than one
+		vfVariantRoundTrip([][][]int32{{{u("a"), u("b")}, {u("c"), u("d")}}, {{u("e"), u("f")}, {u("g"), u("h")}}})
+	case 8: // 2 x 3 x 2
+		vfVariantRoundTrip([][][]uint8{{{vfU8("a"), vfU8("b")}, {vfU8("c"), vfU8("d")}, {vfU8("e"), vfU8("f")}}, {{vfU8("g"), vfU8("h")}, {vfU8("i"), vfU8("j")}, {vfU8("k"), vfU8("l")}}})
+	case 9: // 1 x 2 x 1 x 2
+		vfVariantRoundTrip([][][][]int32{{{{u("a"), u("b")}}, {{u("c"), u("d")}}}})
 	case 0:
 		vfVariantRoundTrip([]int32{})
 	case 1:
